@@ -177,6 +177,14 @@ static RECEIVED: std::sync::Mutex<Vec<String>> = std::sync::Mutex::new(Vec::new(
 #[derive(Debug, Clone, Copy)]
 struct Zst;
 
+struct TwoLines(u32);
+
+impl std::fmt::Display for TwoLines {
+    fn fmt(&self, f: &mut std::fmt::Formatter<'_>) -> std::fmt::Result {
+        write!(f, "w={}\nh={}", self.0, self.0 * 2)
+    }
+}
+
 fn args_probe(kind: &str) -> String {
     use divan::{
         verif::{args_bench, args_names, run_bencher, LoopConfig},
@@ -217,6 +225,42 @@ fn args_probe(kind: &str) -> String {
                 b.bench_local(|| ());
             },
         ),
+        // renderings with unusual characters in them (a line break, a tab, the separator of paths): every label is still the
+        // rendering of the argument at its own position
+        "chars" => {
+            static A_CHARS: BenchArgs = BenchArgs::new();
+            A_CHARS.runner(
+                || ['a', '\n', 'b', ':', '\t', 'c', '|', ' ', 'd'],
+                |a| a.to_string(),
+                |b: Bencher, a: &char| {
+                    RECEIVED.lock().unwrap().push(a.to_string());
+                    b.bench_local(|| ());
+                },
+            )
+        }
+        "revstr" => {
+            static A_REV: BenchArgs = BenchArgs::new();
+            static TABLE: &[&str] = &["one", "two\nlines", "", "::", "four"];
+            A_REV.runner(
+                || TABLE.iter().rev(),
+                |a| a.to_string(),
+                |b: Bencher, a: &&&str| {
+                    RECEIVED.lock().unwrap().push(a.to_string());
+                    b.bench_local(|| ());
+                },
+            )
+        }
+        "display" => {
+            static A_DISP: BenchArgs = BenchArgs::new();
+            A_DISP.runner(
+                || vec![TwoLines(1), TwoLines(22), TwoLines(3)],
+                |a| a.to_string(),
+                |b: Bencher, a: &TwoLines| {
+                    RECEIVED.lock().unwrap().push(a.to_string());
+                    b.bench_local(|| ());
+                },
+            )
+        }
         "zst" => A_ZST.runner(
             || [Zst, Zst, Zst],
             |a| format!("{a:?}"),
@@ -245,7 +289,8 @@ fn args_probe(kind: &str) -> String {
     }
     let got = RECEIVED.lock().unwrap().clone();
     let want: Vec<String> = order.iter().map(|&i| names[i].clone()).collect();
-    format!("names={} received={} match={}", names.join("|"), got.join("|"), (got == want) as u8)
+    let show = |v: &[String]| v.iter().map(|s| format!("{s:?}")).collect::<Vec<_>>().join(",");
+    format!("names={} received={} match={}", show(&names), show(&got), (got == want) as u8)
 }
 
 fn main() {
